@@ -69,3 +69,38 @@ func zzH_C02() {
 		vReach("end")
 	})
 }
+
+// zzH_C02r: a call is issued at the moment the connection ends (peer EOF or read error, no other
+// traffic): whatever the interleaving of the sender's registration with the reader's final sweep, the
+// call is completed exactly once.
+func zzH_C02r() {
+	m := newZZMsgs(8)
+	conn := NewConnWithCodec(NewClientCodec(&zzBytesCodec{}, nil, m, 64))
+	switch vChoose("mode", 3) {
+	case 1:
+		conn.directIO = true
+		vTag("directIO")
+	case 2:
+		conn.SetPipelining(true)
+		vTag("pipelining")
+	}
+	var c *Call
+	var reply []byte
+	args := []byte{0x61}
+	vGo("caller", func() {
+		c = conn.Go("S.M", &args, &reply, make(chan *Call, 2))
+	})
+	if vChoose("cut", 2) == 0 {
+		m.fail(io.EOF)
+	} else {
+		m.fail(errZZRead)
+	}
+	vAtEnd(func() {
+		vAssert(vBlocked() == 0, "no-goroutine-stuck")
+		if c != nil {
+			vAssertOn(len(c.Done) == 1, "exactly-once", c)
+			vAssert(c.Error != nil, "outstanding-call-fails")
+		}
+		vReach("end")
+	})
+}
